@@ -222,9 +222,6 @@ def explore(ctx):
                 for f in (1, 2.5):
                     for unused in (False, True):
                         for probes in ('absent', 'two'):
-                            if not ctx.thorough and (i + ctx.seed) % 2 and cur == 'none':
-                                i += 1
-                                continue
                             i += 1
                             cfg = dict(default, curation=cur, features=feat, whitening=wh,
                                        unused_top=unused, raw=(i % 2 == 0))
@@ -235,9 +232,9 @@ def explore(ctx):
     ctx.run_cases(run_case, cases, sweep='single-probe-sources')
     cases = []
     fam = [0, 1, 2, 4, 5]
-    K = 3
+    K = 4 if ctx.thorough else 3
     for k in range(1, K + 1):
-        for tup in itertools.product(fam if (k <= 2 or ctx.thorough) else fam[:4], repeat=k):
+        for tup in itertools.product(fam if k <= 3 else fam[:4], repeat=k):
             cases.append({'kind': 'merged', 'tuple': list(tup),
                           'probes_desc': [merged_probe(ix, j) for j, ix in enumerate(tup)],
                           'factor': [1, 2.5][len(cases) % 2], 'label': '', 'fill': ctx.seed})
